@@ -1,4 +1,5 @@
 """Matching logical objects"""
+import operator as operator_module
 import warnings
 from abc import ABCMeta, abstractmethod
 from collections import namedtuple
@@ -418,8 +419,9 @@ class Condition(MatchCriteria):
         if left_value is None or right_value is None:
             raise ComparisonError(f"Error comparing {left_value} and {right_value}. Neither should be None.")
 
-        # x.__le__(y) style call
-        return getattr(left_value, operator)(right_value)
+        # operator.__le__(x, y) style call. Unlike x.__le__(y), this falls back to the reflected comparison
+        # of y when x does not know how to compare itself to y (e.g. an int to a float)
+        return getattr(operator_module, operator)(left_value, right_value)
 
 
 class Anded(namedtuple('Anded', ['conditions', 'ors'])):
